@@ -1,6 +1,7 @@
 package govc
 
 import (
+	"os"
 	"fmt"
 	"go/constant"
 	"go/token"
@@ -992,6 +993,9 @@ func (u *Unit) exec(s *State, f *Frame, in ssa.Instruction) []*State {
 		}
 		if c.IsFalse() {
 			u.jump(s, f, fb)
+			return nil
+		}
+		if u.tryIfConvert(s, f, c, tb, fb) {
 			return nil
 		}
 		other := s.clone()
@@ -1989,4 +1993,131 @@ func addrEscapes(v ssa.Value) bool {
 		}
 	}
 	return false
+}
+
+// ---------- if-conversion of simple triangles / diamonds ----------
+// `if c { x = v }` and `if c { x = v } else { x = w }` whose branches only assign local variables
+// (constants, values already computed, float arithmetic on them) are executed without forking the
+// path: afterwards each assigned local holds ite(c, then-value, else-value). Pure path-count
+// reduction; nothing is assumed.
+
+func simpleBranchBlock(b *ssa.BasicBlock) bool {
+	if len(b.Succs) != 1 || len(b.Preds) != 1 || len(b.Instrs) == 0 {
+		return false
+	}
+	if _, ok := b.Instrs[len(b.Instrs)-1].(*ssa.Jump); !ok {
+		return false
+	}
+	for _, in := range b.Instrs[:len(b.Instrs)-1] {
+		switch x := in.(type) {
+		case *ssa.DebugRef:
+		case *ssa.Store:
+			a, ok := x.Addr.(*ssa.Alloc)
+			if !ok || a.Heap {
+				return false
+			}
+		case *ssa.UnOp:
+			if x.Op != token.MUL {
+				return false
+			}
+			a, ok := x.X.(*ssa.Alloc)
+			if !ok || a.Heap {
+				return false
+			}
+		case *ssa.BinOp:
+			if !isFloat(x.X.Type()) {
+				return false
+			}
+		default:
+			return false
+		}
+	}
+	return true
+}
+
+func startsWithPhi(b *ssa.BasicBlock) bool {
+	if len(b.Instrs) == 0 {
+		return false
+	}
+	_, ok := b.Instrs[0].(*ssa.Phi)
+	return ok
+}
+
+func (u *Unit) tryIfConvert(s *State, f *Frame, c *Term, tb, fb *ssa.BasicBlock) bool {
+	var join *ssa.BasicBlock
+	var thenB, elseB *ssa.BasicBlock
+	switch {
+	case simpleBranchBlock(tb) && simpleBranchBlock(fb) && tb.Succs[0] == fb.Succs[0] && tb != fb:
+		join, thenB, elseB = tb.Succs[0], tb, fb
+	case simpleBranchBlock(tb) && tb.Succs[0] == fb:
+		join, thenB = fb, tb
+	case simpleBranchBlock(fb) && fb.Succs[0] == tb:
+		join, elseB = tb, fb
+	default:
+		return false
+	}
+	if startsWithPhi(join) {
+		return false
+	}
+	li := u.V.loops(f.Fn)
+	for _, b := range []*ssa.BasicBlock{thenB, elseB} {
+		if b != nil {
+			if _, isHead := li.body[b]; isHead {
+				return false
+			}
+		}
+	}
+	run := func(b *ssa.BasicBlock) (map[*ssa.Alloc]*Term, bool) {
+		if b == nil {
+			return map[*ssa.Alloc]*Term{}, true
+		}
+		st := s.clone()
+		fr := st.top()
+		fr.Prev, fr.Block, fr.Idx = f.Block, b, 0
+		nObl := len(u.Obls)
+		for _, in := range b.Instrs[:len(b.Instrs)-1] {
+			fr.Idx++
+			if forks := u.exec(st, fr, in); len(forks) > 0 || st.Dead {
+				return nil, false
+			}
+		}
+		if len(u.Obls) != nObl {
+			return nil, false // an obligation was generated inside the branch: keep the fork
+		}
+		// definitions of fresh names introduced while executing the branch are unconditional
+		s.Decls = append(s.Decls, st.Decls[len(s.Decls):]...)
+		s.PC = append(s.PC, st.PC[len(s.PC):]...)
+		out := map[*ssa.Alloc]*Term{}
+		for a, v := range fr.Cells {
+			if old, ok := f.Cells[a]; ok && old != v {
+				out[a] = v
+			}
+		}
+		return out, true
+	}
+	tv, ok1 := run(thenB)
+	if !ok1 {
+		return false
+	}
+	ev, ok2 := run(elseB)
+	if !ok2 {
+		return false
+	}
+	for a, v := range tv {
+		w, ok := ev[a]
+		if !ok {
+			w = f.Cells[a]
+		}
+		f.Cells[a] = Ite(c, v, w)
+	}
+	for a, w := range ev {
+		if _, done := tv[a]; !done {
+			f.Cells[a] = Ite(c, f.Cells[a], w)
+		}
+	}
+	if os.Getenv("GOVC_DEBUG_IFCONV") != "" {
+		fmt.Fprintf(os.Stderr, "ifconv %s block %d\n", f.Fn.Name(), f.Block.Index)
+	}
+	u.jump(s, f, join)
+	return true
 }
